@@ -47,6 +47,15 @@ def formula_set(tier):
     fs = list(F.F(2, U, B, leaves))
     Uc = F.unary_ops(((0, 1), (1, 2)) if quick else F.I_QUICK, ops=EX_U)
     fs += list(F.chains(3, Uc, F.X))
+    # arithmetic below the predicates (the explainer walks through every arithmetic node down to the variables)
+    X, Y = F.X, F.Y
+    ar = [('pred', '>=', ('+', X, Y), F.C0), ('pred', '<=', ('/', X, F.C2), Y), ('pred', '>', ('abs', ('-', X, Y)), F.C1),
+          ('pred', '>=', ('*', X, F.C2), F.C0), ('pred', '<=', ('neg', X), Y), ('pred', '>=', ('pow', F.C2, X), F.C1), ('pred', '<', ('exp', X), ('sqrt', ('abs', Y)))]
+    U1 = F.unary_ops(F.I_QUICK, ops=EX_U)
+    B1 = F.binary_ops(F.I_QUICK, ops=EX_B, unless=False)
+    for i in range(0, len(ar) - 1, 2):
+        fs += list(F.F(1, U1, B1, [(ar[i], ar[i + 1], F.X)]))
+    fs += [ar[-1], ('always', (0, 1), ar[-1]), ('not', ar[-1])]
     # the same variable reached twice through different temporal windows (nested / overlapping / disjoint reported intervals)
     Ut = F.unary_ops(((0, 3), (1, 2), (0, 1), (2, 3)), ops=('eventually', 'always', 'once', 'historically'))
     for u in Ut:
